@@ -87,6 +87,21 @@ func c19State(seed uint64, k int) state.ClusterState {
 
 const c19Saves = 4
 
+// c19SaveInput is what a caller hands to Save for generation k. Odd generations
+// do what the controller does in practice: start from the state read back from
+// the store (which carries the checksum of the PREVIOUS generation) and mutate
+// it; the content is made equal to c19State(seed, k) so the expected encodings
+// do not depend on the path taken.
+func c19SaveInput(st *statefile.Store, seed uint64, k int) state.ClusterState {
+	want := c19State(seed, k)
+	if k%2 == 1 {
+		if prev, err := st.Load(context.Background()); err == nil {
+			want.Checksum = prev.Checksum // stale checksum travels with the loaded value
+		}
+	}
+	return want
+}
+
 // c19ShortState is the shortest member of the family (no extra nodes, short ids).
 func c19ShortState() state.ClusterState {
 	st := c19State(0, 0)
@@ -111,7 +126,7 @@ func TestVerifC19Child(t *testing.T) {
 	st := statefile.New(filepath.Join(dir, "cluster-state.json"))
 	for k := 0; k < c19Saves; k++ {
 		fmt.Fprintf(prog, "begin %d\n", k)
-		if err := st.Save(context.Background(), c19State(seed, k)); err != nil {
+		if err := st.Save(context.Background(), c19SaveInput(st, seed, k)); err != nil {
 			fmt.Fprintf(prog, "error %d %v\n", k, err)
 			t.Fatalf("save %d: %v", k, err)
 		}
@@ -303,6 +318,32 @@ func TestVerifC19Kill(t *testing.T) {
 					break
 				}
 				r.Count("kill.post_crash_save_roundtrips", 1)
+				// and once more the way the controller does it: mutate the value just loaded
+				// (it carries that generation's checksum) and save it again
+				mut := got2
+				mut.Revision += 1000
+				mut.AppliedRaftIndex += 1000
+				expect := mut
+				expect.Checksum = ""
+				wantMut, eerr2 := state.Encode(expect)
+				if eerr2 != nil {
+					t.Fatalf("encode mutated state: %v", eerr2)
+				}
+				if serr := st.Save(context.Background(), mut); serr != nil {
+					r.Violation("save-of-loaded-then-mutated-state-failed", c19With(wit, "err", serr.Error()))
+					break
+				}
+				got3, lerr3 := st.Load(context.Background())
+				if lerr3 != nil {
+					r.Violation("load-error-after-save-of-loaded-then-mutated-state", c19With(c19With(wit, "err", lerr3.Error()), "continuation_step", j))
+					break
+				}
+				enc3, _ := state.Encode(got3)
+				if !bytes.Equal(enc3, wantMut) {
+					r.Violation("loaded-then-mutated-state-loaded-differently", c19With(wit, "continuation_step", j))
+					break
+				}
+				r.Count("kill.loaded_then_mutated_save_roundtrips", 1)
 			}
 			os.RemoveAll(dir)
 		}
